@@ -101,13 +101,18 @@ def obligations(tier):
         CH("strict_refuses_custom_in_extensions", H4, "prop_extensions", t * 2, functions=F4[2:3], stubs=[FMT],
            bounds="two registered extensions each clean/custom and each given as dict or ready-made instance, unregistered extension, extension-definition; both orders"),
         CH("strict_refuses_injected_custom_content", H4, "flag_iff_strict_refuses", t * 2, mode="E1s", functions=["stix2.base._STIXBase.__init__"],
-           bounds="none, each single and each ordered pair of 43 injection sites on 9 base objects, with and without a legal unregistered property-extension next to them"),
+           bounds="none, each single and each ordered pair of 45 injection sites on 10 base objects, with and without a legal unregistered property-extension next to them"),
         CH("strict_refuses_reserved_member_names", H4, "reserved_names", t, mode="E1s", functions=["stix2.base._STIXBase.__init__", "stix2.properties.EmbeddedObjectProperty.clean"],
-           bounds="members named allow_custom / interoperability / custom_properties at 12 sites, alone or next to a custom property"),
+           bounds="members named allow_custom / interoperability / custom_properties at 14 sites, alone or next to a custom property"),
         CH("unregistered_extension_entries", H, "ext_entries", t, mode="E1s", functions=["stix2.properties.ExtensionsProperty.clean"], stubs=[MODEL],
            bounds="17 entry values (object with each extension type, not an object, empty, nulls and empty containers at depth 1-3, unknown / non-text / missing extension_type) under an unregistered extension-definition key x 5 host objects x parse / constructor"),
         CH("strict_refuses_custom_hash_names", H4, "prop_hashes", t, mode="E1s", functions=F4[3:], bounds="12 algorithm names, singles and pairs"),
     ]
+    from props import C14
+    obls += [o for o in C14.obligations(tier) if o.name == "strictness_independent_of_history"]       # what 2.0 refuses does not depend on what 2.1 accepted before
+    obls.append(CH("observable_instances_rechecked", H, "observable_instances", t, mode="E1s", functions=["stix2.properties.ObservableProperty.clean", "stix2.base._Observable._check_ref"],
+                   bounds="2.0 observed-data built from observable INSTANCES taken out of another container (7 selections: valid reuse, missing keys, keys now naming another type) x constructor / new_version / dictionary form; "
+                          "accepted output is checked by an independent reference resolver"))
     for p in range(8):
         obls.append(CH("corruption_then_valid_p%d" % p, H, "corrupt_then_valid", t * 2, mode="E1s", functions=FE[:2] + ["stix2.parsing.parse"], stubs=[MODEL],
                        env={"VERIF_PART": str(p)}, bounds="(class, slot/nested site) cases with index %% 8 == %d x %d junk values + deletion, strict mode" % (p, __import__("props.h_C17", fromlist=["NJ"]).NJ)))
